@@ -15,7 +15,8 @@ EXPLANATION = (
     "dereference of the mapping is dominated by index < len, and a bitmap is created only if the word of the region's last "
     "byte lies inside the log; (B4) SET_LOG_BASE builds all bitmaps before replacing any and replaces them in every current "
     "region; (B5) logging stays in force: the accepted log mapping is retained by the handler and installed for regions "
-    "created by later memory-table changes.")
+    "created by later memory-table changes."
+    ' Also: (B2) a slice of the region bitmap starts at base + offset exactly; (B4) installing a bitmap overwrites the previous one; (B6) C03/R1 for SET_LOG_BASE.')
 NOT_DECIDED = "The arithmetic as a numeric function over all values (bit = gpa/4096 for every address), cross-process visibility of the mapping."
 
 
